@@ -6,9 +6,11 @@ import (
 	"errors"
 	"fmt"
 	"io"
+	"net"
 	"os"
 	"path/filepath"
 	"strings"
+	"syscall"
 	"testing/iotest"
 
 	"gitlab.com/gomidi/midi/v2/smf"
@@ -29,7 +31,7 @@ func init() {
 			"fragmenting readers obey the io.Reader contract: at least one byte or an error per call for non-empty p; n > 0 may come together with io.EOF",
 			"failure kinds: ok / tracks missing / end-of-data family / other",
 		},
-		Require: []string{"fragmented_reads", "short_reads_in_multibyte_field", "split_points", "eof_with_data_reads", "truncated_files", "compared_ok_values", "compared_failures", "big_payload_files", "big_truncated_reads", "file_and_bufio_reads"},
+		Require: []string{"fragmented_reads", "short_reads_in_multibyte_field", "split_points", "eof_with_data_reads", "truncated_files", "compared_ok_values", "compared_failures", "big_payload_files", "big_truncated_reads", "file_and_bufio_reads", "pipe_reads"},
 		Run:     runC09,
 	})
 }
@@ -61,6 +63,7 @@ func (r *fragReader) Read(p []byte) (int, error) {
 
 func runC09(c *mon.Ctx) {
 	runC09Sources(c)
+	runC09Pipes(c)
 	c.Each("files", c.N(1000, 60_000), func(i int64, r *mon.Rand) {
 		f := gen.SMFFile(r, gen.FileOpts{MaxTracks: 4, MaxEvents: 12, AllowBig: false, Aliens: i%2 == 0, PaddedVLQ: true, Running: true})
 		if i%10 == 0 {
@@ -204,12 +207,30 @@ func runC09Sources(c *mon.Ctx) {
 	if dir == "" {
 		dir = os.TempDir()
 	}
-	lo, hi := 3990, 4200
+	// first-track body lengths: a dense window around 4096 plus +-9 around every multiple of 4096 up to
+	// 64 KiB (thorough: every length up to 8400 and +-64 around the multiples up to 128 KiB)
+	var bodyLens []int
 	if c.Thorough() {
-		lo, hi = 0, 8400
+		for l := 0; l < 8400; l++ {
+			bodyLens = append(bodyLens, l)
+		}
+		for k := 3; k <= 32; k++ {
+			for d := -64; d <= 64; d++ {
+				bodyLens = append(bodyLens, 4096*k+d-22)
+			}
+		}
+	} else {
+		for l := 3990; l < 4200; l++ {
+			bodyLens = append(bodyLens, l)
+		}
+		for k := 2; k <= 16; k++ {
+			for d := -9; d <= 9; d++ {
+				bodyLens = append(bodyLens, 4096*k+d-22) // -22: header chunk + chunk header in front of the body
+			}
+		}
 	}
-	c.Each("offset-sweep", int64(hi-lo), func(i int64, r *mon.Rand) {
-		bodyLen := lo + int(i)
+	c.Each("offset-sweep", int64(len(bodyLens)), func(i int64, r *mon.Rand) {
+		bodyLen := bodyLens[i]
 		// track 1: one text meta sized so that the chunk body has bodyLen bytes (+ EOT)
 		var t1 []ref.EncEv
 		rest := bodyLen - 4
@@ -223,7 +244,11 @@ func runC09Sources(c *mon.Ctx) {
 		}
 		t1 = append(t1, ref.EncEv{Ev: ref.Ev{Delta: 0, Msg: ref.EOT}})
 		var t2 []ref.EncEv
-		for k := 0; k < 1500; k++ {
+		n2 := 1500
+		if bodyLen > 8000 || i%8 == 0 {
+			n2 = 14000 // more than 32 KiB follow the second chunk header
+		}
+		for k := 0; k < n2; k++ {
 			t2 = append(t2, ref.EncEv{Ev: ref.Ev{Delta: uint32(k % 3), Msg: []byte{0x90, byte(k & 127), byte(1 + k%100)}}, RS: true})
 		}
 		t2 = append(t2, ref.EncEv{Ev: ref.Ev{Delta: 0, Msg: ref.EOT}})
@@ -282,6 +307,81 @@ func runC09Sources(c *mon.Ctx) {
 			}
 		}
 		c.Enumerated(1)
+	})
+}
+
+// runC09Pipes: sources that are *os.File but cannot seek (pipes, FIFOs), with chunks and payloads above 4 KiB
+func runC09Pipes(c *mon.Ctx) {
+	dir := c.Dir
+	if dir == "" {
+		dir = os.TempDir()
+	}
+	c.Each("pipes", c.N(60, 1500), func(i int64, r *mon.Rand) {
+		f := gen.SMFFile(r, gen.FileOpts{MaxTracks: 3, MaxEvents: 8, Aliens: false, PaddedVLQ: true, Running: true})
+		// large unknown chunks before / between / after the tracks and a large payload
+		for k := 0; k < r.Range(1, 3); k++ {
+			f.Aliens = append(f.Aliens, ref.Alien{Before: r.Intn(len(f.Tracks) + 1), Type: [4]byte{'X', 'B', 'I', 'G'}, Data: r.Bytes(r.Pick(4095, 4096, 4097, 5000, 70000))})
+		}
+		if r.P(1, 2) {
+			p := r.Bytes7(r.Pick(4097, 6000, 20000))
+			f.Tracks[len(f.Tracks)-1] = append([]ref.EncEv{{Ev: ref.Ev{Delta: 0, Msg: ref.Meta(0x01, p)}}}, f.Tracks[len(f.Tracks)-1]...)
+		}
+		b := f.Bytes(nil)
+		want, werr := smf.ReadFrom(bytes.NewReader(b))
+		if werr != nil {
+			c.Violation("pipes-memory", fmt.Sprintf("valid file does not read from memory: %v", werr), mon.Hex(head(b, 200)), nil, nil)
+			return
+		}
+		wf := fromLib(want)
+		for _, kind := range []string{"os.Pipe", "fifo+ReadFile", "net.Pipe"} {
+			var got *smf.SMF
+			var err error
+			in := map[string]any{"file size": len(b), "source": kind, "unknown chunks": len(f.Aliens)}
+			if c.Guard("panic:pipe", in, func() {
+				switch kind {
+				case "os.Pipe":
+					pr, pw, e := os.Pipe()
+					if e != nil {
+						err = e
+						return
+					}
+					go func() { pw.Write(b); pw.Close() }()
+					got, err = smf.ReadFrom(pr)
+					pr.Close()
+				case "fifo+ReadFile":
+					path := filepath.Join(dir, fmt.Sprintf("fifo-%d-%d", c.Shard, i))
+					if e := syscall.Mkfifo(path, 0o600); e != nil {
+						err = nil
+						got = want // cannot create a FIFO here: skip
+						return
+					}
+					defer os.Remove(path)
+					go func() {
+						fw, e := os.OpenFile(path, os.O_WRONLY, 0)
+						if e == nil {
+							fw.Write(b)
+							fw.Close()
+						}
+					}()
+					got, err = smf.ReadFile(path)
+				default:
+					a, bb := net.Pipe()
+					go func() { a.Write(b); a.Close() }()
+					got, err = smf.ReadFrom(bb)
+					bb.Close()
+				}
+			}) {
+				continue
+			}
+			c.Count("pipe_reads", 1)
+			c.Eval(1)
+			if err != nil {
+				c.Violation("pipe-error:"+kind, fmt.Sprintf("a valid file of %d bytes reads from memory but not through %s: %v", len(b), kind, err), in, "value", err.Error())
+			} else if d := ref.EqualFiles(wf, fromLib(got)); d != "" {
+				c.Violation("pipe-value:"+kind, fmt.Sprintf("%s gives a different value: %s", kind, d), in, nil, nil)
+			}
+		}
+		c.DistinctBytes([]byte(fmt.Sprint("pipe", i)))
 	})
 }
 
